@@ -115,6 +115,12 @@ impl Schedule {
         self.inner.is_empty()
     }
 
+    /// Raw ranges stored in the schedule (verification instrumentation).
+    #[cfg(feature = "verif-hooks")]
+    pub fn verif_ranges(&self) -> &[TimeRange] {
+        &self.inner
+    }
+
     /// Check if a schedule is always closed.
     pub(crate) fn is_always_closed(&self) -> bool {
         self.inner.iter().all(|rg| rg.kind == RuleKind::Closed)
